@@ -234,4 +234,232 @@ theorem ren_setInp (σ : Nat → Nat) (a c : Entry) : ren σ (setInp a c) = setI
 theorem ren_setOut (σ : Nat → Nat) (a c : Entry) : ren σ (setOut a c) = setOut (ren σ a) (ren σ c) := by
   cases a; simp [setOut]; rfl
 
+
+theorem setInp_eq (e ie : Entry) :
+    (match e with | .mk d c _ o => Entry.mk { d with isRpc := true } c [ie] o) = setInp e ie := by cases e; rfl
+theorem setOut_eq (e oe : Entry) :
+    (match e with | .mk d c i _ => Entry.mk { d with isRpc := true } c i [oe]) = setOut e oe := by cases e; rfl
+
+/-! ### the relation on entries: what the traversal needs -/
+
+/-- A relation between entries that every operation of `toEntry` preserves. -/
+structure Closed2 (RE : Entry → Entry → Prop) : Prop where
+  withD : ∀ (a b : Entry) (f : EData → EData), GoodF f → RE a b → RE (a.withD f) (b.withD f)
+  addErrs : ∀ (a b : Entry) (xs : List Err), RE a b → RE (a.addErrs xs) (b.addErrs xs)
+  add : ∀ (a b c d : Entry) (k : String), RE a b → RE c d → RE (a.add k c) (b.add k d)
+  merge : ∀ (a b c d : Entry), RE a b → RE c d → RE (a.merge none c) (b.merge none d)
+  importErrors : ∀ (a b c d : Entry), RE a b → RE c d → RE (a.importErrors c) (b.importErrors d)
+  setInp : ∀ (a b c d : Entry), a.inp = [] → b.inp = [] → RE a b → RE c d → RE (setInp a c) (setInp b d)
+  setOut : ∀ (a b c d : Entry), a.out = [] → b.out = [] → RE a b → RE c d → RE (setOut a c) (setOut b d)
+
+theorem Closed2.addErr {RE : Entry → Entry → Prop} (h : Closed2 RE) (a b : Entry) (x : Err) (hab : RE a b) :
+    RE (a.addErr x) (b.addErr x) := h.addErrs a b [x] hab
+
+/-- Equal after renaming, provided the left entry is error free. -/
+def REl (σ : Nat → Nat) (a b : Entry) : Prop := Clean a → ren σ a = b
+/-- Equal after renaming, provided the right entry is error free. -/
+def REr (σ : Nat → Nat) (a b : Entry) : Prop := Clean b → ren σ a = b
+/-- Equal after renaming, provided one of the two is error free. -/
+def REb (σ : Nat → Nat) (a b : Entry) : Prop := REl σ a b ∧ REr σ a b
+
+theorem closed2_REl (σ : Nat → Nat) : Closed2 (REl σ) where
+  withD a b f hf hab := by
+    intro hc
+    rw [ren_withD σ a f (hf.2 σ), hab ((clean_withD a f hf.1).1 hc)]
+  addErrs a b xs hab := by
+    intro hc
+    rw [ren_addErrs, hab ((clean_addErrs a xs).1 hc).1]
+  add a b c d k hab hcd := by
+    intro hc
+    obtain ⟨h1, h2, _⟩ := clean_add a k c hc
+    rw [ren_add, hab h1, hcd h2]
+  merge a b c d hab hcd := by
+    intro hc
+    obtain ⟨h1, h2⟩ := clean_merge a none c hc
+    rw [ren_merge, hab h1, hcd h2]
+  importErrors a b c d hab hcd := by
+    intro hc
+    obtain ⟨h1, h2⟩ := (clean_importErrors a c).1 hc
+    rw [ren_importErrors, hab h1, hcd h2]
+  setInp a b c d ha _ hab hcd := by
+    intro hc
+    obtain ⟨h1, h2⟩ := clean_setInp a c hc ha
+    rw [ren_setInp, hab h1, hcd h2]
+  setOut a b c d ha _ hab hcd := by
+    intro hc
+    obtain ⟨h1, h2⟩ := clean_setOut a c hc ha
+    rw [ren_setOut, hab h1, hcd h2]
+
+theorem closed2_REr (σ : Nat → Nat) : Closed2 (REr σ) where
+  withD a b f hf hab := by
+    intro hc
+    rw [ren_withD σ a f (hf.2 σ), hab ((clean_withD b f hf.1).1 hc)]
+  addErrs a b xs hab := by
+    intro hc
+    rw [ren_addErrs, hab ((clean_addErrs b xs).1 hc).1]
+  add a b c d k hab hcd := by
+    intro hc
+    obtain ⟨h1, h2, _⟩ := clean_add b k d hc
+    rw [ren_add, hab h1, hcd h2]
+  merge a b c d hab hcd := by
+    intro hc
+    obtain ⟨h1, h2⟩ := clean_merge b none d hc
+    rw [ren_merge, hab h1, hcd h2]
+  importErrors a b c d hab hcd := by
+    intro hc
+    obtain ⟨h1, h2⟩ := (clean_importErrors b d).1 hc
+    rw [ren_importErrors, hab h1, hcd h2]
+  setInp a b c d _ hb hab hcd := by
+    intro hc
+    obtain ⟨h1, h2⟩ := clean_setInp b d hc hb
+    rw [ren_setInp, hab h1, hcd h2]
+  setOut a b c d _ hb hab hcd := by
+    intro hc
+    obtain ⟨h1, h2⟩ := clean_setOut b d hc hb
+    rw [ren_setOut, hab h1, hcd h2]
+
+theorem Closed2.and {R1 R2 : Entry → Entry → Prop} (h1 : Closed2 R1) (h2 : Closed2 R2) :
+    Closed2 (fun a b => R1 a b ∧ R2 a b) where
+  withD a b f hf hab := ⟨h1.withD a b f hf hab.1, h2.withD a b f hf hab.2⟩
+  addErrs a b xs hab := ⟨h1.addErrs a b xs hab.1, h2.addErrs a b xs hab.2⟩
+  add a b c d k hab hcd := ⟨h1.add a b c d k hab.1 hcd.1, h2.add a b c d k hab.2 hcd.2⟩
+  merge a b c d hab hcd := ⟨h1.merge a b c d hab.1 hcd.1, h2.merge a b c d hab.2 hcd.2⟩
+  importErrors a b c d hab hcd := ⟨h1.importErrors a b c d hab.1 hcd.1, h2.importErrors a b c d hab.2 hcd.2⟩
+  setInp a b c d ha hb hab hcd := ⟨h1.setInp a b c d ha hb hab.1 hcd.1, h2.setInp a b c d ha hb hab.2 hcd.2⟩
+  setOut a b c d ha hb hab hcd := ⟨h1.setOut a b c d ha hb hab.1 hcd.1, h2.setOut a b c d ha hb hab.2 hcd.2⟩
+
+theorem closed2_REb (σ : Nat → Nat) : Closed2 (REb σ) := (closed2_REl σ).and (closed2_REr σ)
+
+theorem REb_of_eq (σ : Nat → Nat) {a b : Entry} (h : ren σ a = b) : REb σ a b := ⟨fun _ => h, fun _ => h⟩
+
+theorem REb_dirty (σ : Nat → Nat) {a b : Entry} (ha : ¬ Clean a) (hb : ¬ Clean b) : REb σ a b :=
+  ⟨fun h => absurd h ha, fun h => absurd h hb⟩
+
+/-! ### folds -/
+
+theorem foldl_rel {α β₁ β₂ : Type} (R : β₁ → β₂ → Prop) (f₁ : β₁ → α → β₁) (f₂ : β₂ → α → β₂) (l : List α)
+    (b₁ : β₁) (b₂ : β₂) (h0 : R b₁ b₂) (hstep : ∀ a₁ a₂, ∀ x ∈ l, R a₁ a₂ → R (f₁ a₁ x) (f₂ a₂ x)) :
+    R (l.foldl f₁ b₁) (l.foldl f₂ b₂) := by
+  induction l generalizing b₁ b₂ with
+  | nil => exact h0
+  | cons x xs ih =>
+    simp only [List.foldl_cons]
+    exact ih _ _ (hstep _ _ x (List.mem_cons_self ..) h0) (fun a₁ a₂ y hy => hstep a₁ a₂ y (List.mem_cons_of_mem _ hy))
+
+theorem mem_all_subs {n c : Stmt} {k : String} (h : c ∈ n.all k) : c ∈ n.subs := (List.mem_filter.1 h).1
+
+theorem mem_one_subs {n c : Stmt} {k : String} (h : n.one? k = some c) : c ∈ n.subs := List.mem_of_find?_eq_some h
+
+/-- Pointwise related lists. -/
+inductive RelL {α β : Type} (R : α → β → Prop) : List α → List β → Prop
+  | nil : RelL R [] []
+  | cons {a b l₁ l₂} : R a b → RelL R l₁ l₂ → RelL R (a :: l₁) (b :: l₂)
+
+theorem RelL.append {α β : Type} {R : α → β → Prop} {l₁ l₂ : List α} {m₁ m₂ : List β}
+    (h : RelL R l₁ m₁) (h' : RelL R l₂ m₂) : RelL R (l₁ ++ l₂) (m₁ ++ m₂) := by
+  induction h with
+  | nil => exact h'
+  | cons hab _ ih => exact RelL.cons hab ih
+
+theorem RelL.length {α β : Type} {R : α → β → Prop} {l : List α} {m : List β} (h : RelL R l m) : l.length = m.length := by
+  induction h with
+  | nil => rfl
+  | cons _ _ ih => simp [ih]
+
+/-- The relation between the accumulators of the two folds. -/
+def AccRel (RE : Entry → Entry → Prop) (RS : TState → TState → Prop) (a₁ a₂ : Entry × TState) : Prop :=
+  RE a₁.1 a₂.1 ∧ RS a₁.2 a₂.2
+
+section Step
+variable {RE : Entry → Entry → Prop} (hC : Closed2 RE) {RS : TState → TState → Prop}
+  (env₁ env₂ : Env) (r1 r2 : Rec) (root₁ root₂ : Mod) (n : Stmt) (sub₁ sub₂ : List Stmt) (vis₁ vis₂ : List NodeId)
+  (hch : ∀ c ∈ n.subs, ∀ s₁ s₂, RS s₁ s₂ → AccRel RE RS (r1 root₁ sub₁ c vis₁ s₁) (r2 root₂ sub₂ c vis₂ s₂))
+include hC hch
+
+theorem addFold_rel (kw : String) (acc₁ acc₂ : Entry × TState) (h : AccRel RE RS acc₁ acc₂) :
+    AccRel RE RS
+      ((n.all kw).foldl (fun (acc : Entry × TState) c =>
+        (acc.1.add c.arg (r1 root₁ sub₁ c vis₁ acc.2).1, (r1 root₁ sub₁ c vis₁ acc.2).2)) acc₁)
+      ((n.all kw).foldl (fun (acc : Entry × TState) c =>
+        (acc.1.add c.arg (r2 root₂ sub₂ c vis₂ acc.2).1, (r2 root₂ sub₂ c vis₂ acc.2).2)) acc₂) := by
+  refine foldl_rel (AccRel RE RS) _ _ _ _ _ h ?_
+  rintro ⟨e₁, s₁⟩ ⟨e₂, s₂⟩ c hc ⟨he, hs⟩
+  obtain ⟨q1, q2⟩ := hch c (mem_all_subs hc) s₁ s₂ hs
+  exact ⟨hC.add _ _ _ _ _ he q1, q2⟩
+
+theorem rpcFold_rel (kw : String) (acc₁ acc₂ : Entry × TState) (h : AccRel RE RS acc₁ acc₂) :
+    AccRel RE RS
+      ((n.all kw).foldl (fun (acc : Entry × TState) c =>
+        (acc.1.add c.arg ((r1 root₁ sub₁ c vis₁ acc.2).1.withD fun d => { d with isRpc := true }),
+          (r1 root₁ sub₁ c vis₁ acc.2).2)) acc₁)
+      ((n.all kw).foldl (fun (acc : Entry × TState) c =>
+        (acc.1.add c.arg ((r2 root₂ sub₂ c vis₂ acc.2).1.withD fun d => { d with isRpc := true }),
+          (r2 root₂ sub₂ c vis₂ acc.2).2)) acc₂) := by
+  refine foldl_rel (AccRel RE RS) _ _ _ _ _ h ?_
+  rintro ⟨e₁, s₁⟩ ⟨e₂, s₂⟩ c hc ⟨he, hs⟩
+  obtain ⟨q1, q2⟩ := hch c (mem_all_subs hc) s₁ s₂ hs
+  exact ⟨hC.add _ _ _ _ _ he (hC.withD _ _ _ ⟨fun _ => rfl, fun _ _ => rfl⟩ q1), q2⟩
+
+theorem importFold_rel (kw : String) (acc₁ acc₂ : Entry × TState) (h : AccRel RE RS acc₁ acc₂) :
+    AccRel RE RS
+      ((n.all kw).foldl (fun (acc : Entry × TState) g =>
+        (acc.1.importErrors (r1 root₁ sub₁ g vis₁ acc.2).1, (r1 root₁ sub₁ g vis₁ acc.2).2)) acc₁)
+      ((n.all kw).foldl (fun (acc : Entry × TState) g =>
+        (acc.1.importErrors (r2 root₂ sub₂ g vis₂ acc.2).1, (r2 root₂ sub₂ g vis₂ acc.2).2)) acc₂) := by
+  refine foldl_rel (AccRel RE RS) _ _ _ _ _ h ?_
+  rintro ⟨e₁, s₁⟩ ⟨e₂, s₂⟩ c hc ⟨he, hs⟩
+  obtain ⟨q1, q2⟩ := hch c (mem_all_subs hc) s₁ s₂ hs
+  exact ⟨hC.importErrors _ _ _ _ he q1, q2⟩
+
+theorem usesFold_rel (kw : String) (acc₁ acc₂ : Entry × TState) (h : AccRel RE RS acc₁ acc₂) :
+    AccRel RE RS
+      ((n.all kw).foldl (fun (acc : Entry × TState) u =>
+        (acc.1.merge none (r1 root₁ sub₁ u vis₁ acc.2).1, (r1 root₁ sub₁ u vis₁ acc.2).2)) acc₁)
+      ((n.all kw).foldl (fun (acc : Entry × TState) u =>
+        (acc.1.merge none (r2 root₂ sub₂ u vis₂ acc.2).1, (r2 root₂ sub₂ u vis₂ acc.2).2)) acc₂) := by
+  refine foldl_rel (AccRel RE RS) _ _ _ _ _ h ?_
+  rintro ⟨e₁, s₁⟩ ⟨e₂, s₂⟩ c hc ⟨he, hs⟩
+  obtain ⟨q1, q2⟩ := hch c (mem_all_subs hc) s₁ s₂ hs
+  exact ⟨hC.merge _ _ _ _ he q1, q2⟩
+
+theorem deviateFold_rel (kw : String) (acc₁ acc₂ : Entry × TState) (h : AccRel RE RS acc₁ acc₂) :
+    AccRel RE RS
+      ((n.all kw).foldl (fun (acc : Entry × TState) dv =>
+        (if deviateKinds.contains dv.arg = true then acc.1.importErrors (r1 root₁ sub₁ dv vis₁ acc.2).1
+          else (acc.1.importErrors (r1 root₁ sub₁ dv vis₁ acc.2).1).addErr (Err.at_ n "deviate-unknown-kind"),
+         (r1 root₁ sub₁ dv vis₁ acc.2).2)) acc₁)
+      ((n.all kw).foldl (fun (acc : Entry × TState) dv =>
+        (if deviateKinds.contains dv.arg = true then acc.1.importErrors (r2 root₂ sub₂ dv vis₂ acc.2).1
+          else (acc.1.importErrors (r2 root₂ sub₂ dv vis₂ acc.2).1).addErr (Err.at_ n "deviate-unknown-kind"),
+         (r2 root₂ sub₂ dv vis₂ acc.2).2)) acc₂) := by
+  refine foldl_rel (AccRel RE RS) _ _ _ _ _ h ?_
+  rintro ⟨e₁, s₁⟩ ⟨e₂, s₂⟩ c hc ⟨he, hs⟩
+  obtain ⟨q1, q2⟩ := hch c (mem_all_subs hc) s₁ s₂ hs
+  refine ⟨?_, q2⟩
+  dsimp only
+  split
+  · exact hC.importErrors _ _ _ _ he q1
+  · exact hC.addErr _ _ _ (hC.importErrors _ _ _ _ he q1)
+
+omit hC in
+theorem augFold_rel (l : List Stmt) (hl : ∀ a ∈ l, a ∈ n.subs) (s₁ s₂ : TState) (h : RS s₁ s₂) :
+    RelL RE
+      (l.foldl (fun (acc : List Entry × TState) a =>
+        (acc.1 ++ [(r1 root₁ sub₁ a vis₁ acc.2).1], (r1 root₁ sub₁ a vis₁ acc.2).2)) ([], s₁)).1
+      (l.foldl (fun (acc : List Entry × TState) a =>
+        (acc.1 ++ [(r2 root₂ sub₂ a vis₂ acc.2).1], (r2 root₂ sub₂ a vis₂ acc.2).2)) ([], s₂)).1 ∧
+    RS
+      (l.foldl (fun (acc : List Entry × TState) a =>
+        (acc.1 ++ [(r1 root₁ sub₁ a vis₁ acc.2).1], (r1 root₁ sub₁ a vis₁ acc.2).2)) ([], s₁)).2
+      (l.foldl (fun (acc : List Entry × TState) a =>
+        (acc.1 ++ [(r2 root₂ sub₂ a vis₂ acc.2).1], (r2 root₂ sub₂ a vis₂ acc.2).2)) ([], s₂)).2 := by
+  refine foldl_rel (fun (a₁ a₂ : List Entry × TState) => RelL RE a₁.1 a₂.1 ∧ RS a₁.2 a₂.2) _ _ _ _ _
+    ⟨RelL.nil, h⟩ ?_
+  rintro ⟨l₁, t₁⟩ ⟨l₂, t₂⟩ a ha ⟨hl', hs⟩
+  obtain ⟨q1, q2⟩ := hch a (hl a ha) t₁ t₂ hs
+  refine ⟨?_, q2⟩
+  exact hl'.append (RelL.cons q1 RelL.nil)
+
+end Step
+
 end Goyang.Lemmas.IncludeRel
